@@ -253,6 +253,10 @@ type GoValueOpts struct {
 	IfaceTypesFor map[reflect.Type][]reflect.Type
 }
 
+// DefaultIfaceTypesFor is filled by package zoo for its non-empty interface
+// types (used when GoValueOpts.IfaceTypesFor has no entry).
+var DefaultIfaceTypesFor = map[reflect.Type][]reflect.Type{}
+
 var defaultIfaceTypes = []reflect.Type{
 	reflect.TypeOf(false), TString, reflect.TypeOf(int(0)), reflect.TypeOf(int64(0)), reflect.TypeOf(uint64(0)), reflect.TypeOf(uint8(0)),
 	reflect.TypeOf(float64(0)), reflect.TypeOf(float32(0)),
@@ -373,6 +377,9 @@ func (g *ValueGen) fill(v reflect.Value, depth int) {
 		}
 		if t.NumMethod() != 0 {
 			ts := g.O.IfaceTypesFor[t]
+			if ts == nil {
+				ts = DefaultIfaceTypesFor[t]
+			}
 			if ts == nil {
 				return
 			}
